@@ -90,6 +90,37 @@ def run_a(prog, res, cg=None, prop="C03", only=None):
     return stat
 
 
+def run_a_functions(prog, res, prop="C03", units=("eval.c", "vm.c", "simplify.c")):
+    """per-function form of the walker rule: any function of the compiler units that touches one
+    sub-AST field of a node type touches all of them (a helper that looks at the branches of an
+    `if` but not at its test has a different idea of the AST than every other pass)"""
+    stat = res.stat("%s.a.fn" % prop, "every compiler function that touches a sub-AST field of a node type touches all of them",
+                    floor=10 if len(units) > 1 else 2)
+    for fn in prog.all_funcs():
+        if fn.unit.name not in units:
+            continue
+        reads = {}
+        for i, nd in enumerate(fn.nodes):
+            if nd["k"] == "mem" and not nd.get("ar"):
+                root, path = fn.mempath(i)
+                if len(path) == 3 and path[0] == "value" and path[1] in SUB_AST and path[2] in SUB_AST[path[1]]:
+                    reads.setdefault(path[1], {})[path[2]] = fn.where(i)
+        for m, fs in reads.items():
+            stat.sites += 1
+            for f_ in SUB_AST[m]:
+                stat.obligations += 1
+                if f_ in fs or (fn.name, m, f_) in WALKER_EXCEPTIONS:
+                    stat.discharged += 1
+                else:
+                    res.add(Finding(prop, "%s.a.walker-skips-field" % prop, fn.name, "%s.%s" % (m, f_),
+                                    list(fs.values())[0],
+                                    "%s looks at %s of %s nodes but never at %s.%s, which every other pass treats as a "
+                                    "sub-expression of the node" % (fn.name, ", ".join("%s.%s" % (m, x) for x in sorted(fs)), m, m, f_),
+                                    unit=fn.unit.display))
+            stat.sample({"function": fn.name, "node": m, "fields": sorted(fs)}, limit=4)
+    return stat
+
+
 # ------------------------------------------------------------------ b. stack effect
 
 def top_delta(fn, e, topvar):
